@@ -289,7 +289,7 @@ def t_fq2_small(ctx, impl, p, moduli, triple_stride):
                 check_op(ctx, env, "fq2_small", op, a); cnt += 1
             if impl == "opt":
                 check_op(ctx, env, "fq2_small", "sgn0", a); cnt += 1
-            for n in list(range(0, 12)) + [q - 2, q - 1, q, q + 1, q * q + 3]:
+            for n in list(range(0, 12)) + [q - 2, q - 1, q, q + 1, q * q + 3, 2 * (q - 1), 3 * (q - 1), 2 * (q - 1) + 1]:
                 check_op(ctx, env, "fq2_small", "pow", a, n=n); cnt += 1
             for k in range(-2 * p, 3 * p):
                 for op in INT_OPS_FQP:
@@ -362,7 +362,7 @@ def t_fq12_small(ctx, impl, p, mc, n_unary, n_pairs, chunk, nchunks):
             check_op(ctx, env, "fq12_small", op, a, b); cnt += 1
         laws2(ctx, env, "fq12_small", a, b)
         laws3(ctx, env, "fq12_small", a, b, c)
-        for n in (0, 1, 2, 3, 5, p, q - 1, q, q - 2):
+        for n in (0, 1, 2, 3, 5, p, q - 1, q, q - 2, 2 * (q - 1), 3 * (q - 1)):
             check_op(ctx, env, "fq12_small", "pow", a, n=n); cnt += 1
         ctx.nontrivial_bulk(4)
     ctx.label("A:fq12", cnt)
@@ -511,7 +511,8 @@ ORACLES = {k: _route for k in ("op", "law", "real", "powlaw", "fq_small", "fq2_s
 
 def exps(p, d):
     q = p ** d
-    spec = [0, 1, 2, 3, p, p - 1, p + 1, p * p - 1, q - 1, q, q - 2, 2 ** 745, 2 ** 744 - 1, 2 ** 1000 + 1]
+    spec = [0, 1, 2, 3, p, p - 1, p + 1, p * p - 1, q - 1, q, q - 2, 2 ** 745, 2 ** 744 - 1, 2 ** 1000 + 1,
+            2 * (q - 1), 3 * (q - 1), 2 * (q - 1) + 1, 5 * (q - 1)]
     if d == 12:
         spec += [(q - 1) // 3, p ** 6]
     return st.one_of(st.sampled_from(spec), uniform_int(0, q), uniform_int(0, 2 ** 800), st.integers(0, 1000))
@@ -532,7 +533,8 @@ def t_real(ctx, impl, real, kind, shard, n, npow):
         q = p ** d
         zero = 0 if d == 1 else [0] * d
         one = 1 if d == 1 else [1] + [0] * (d - 1)
-        for a, n_ in ((zero, 0), (zero, q - 1), (zero, 2 ** 745), (one, q - 1)):
+        for a, n_ in ((zero, 0), (zero, q - 1), (zero, 2 ** 745), (one, q - 1), (zero, 2 * (q - 1)), (zero, 3 * (q - 1)),
+                      (zero, q), (one, 2 * (q - 1))):
             c = dict(base, op="pow", a=a, b=None, n=n_)
             o_op(ctx, c)
             ctx.label("B:pow:zero_or_one_base")
